@@ -636,17 +636,4 @@ def World.step (cr : Crypto) (ccfg scfg : Cfg) (w : World) : Ev → World
 def World.run (cr : Crypto) (ccfg scfg : Cfg) (evs : List Ev) : World :=
   evs.foldl (World.step cr ccfg scfg) (World.init ccfg scfg)
 
-/-- the honest relay: deliver everything that was written, in order, until nothing is left
-    (`fuel` bounds the number of rounds) -/
-def World.relay (cr : Crypto) (ccfg scfg : Cfg) : Nat → Nat → Nat → World → World
-  | 0, _, _, w => w
-  | fuel + 1, i, j, w =>
-    match w.c2s[i]?, w.s2c[j]? with
-    | some m, _ => World.relay cr ccfg scfg fuel (i + 1) j (w.step cr ccfg scfg (.toServer (stripLine i m)))
-    | none, some m => World.relay cr ccfg scfg fuel i (j + 1) (w.step cr ccfg scfg (.toClient (stripLine j m)))
-    | none, none => w
-where
-  /-- the first thing on each wire is the version line; a delivery is the line without its LF -/
-  stripLine (idx : Nat) (m : Bytes) : Bytes := if idx = 0 then m.dropLast else m
-
 end AsyncsshModel.Kex
